@@ -227,27 +227,12 @@ Proof.
     simpl in H1. inversion H1; subst. right. exists b0. split; [assumption|]. apply bshr_filter.
 Qed.
 
-Lemma mshr_evict_instances now ty ptrs : forall srv txt srv' txt' ex,
-  NoDup (map fst srv) -> NoDup (map fst txt) ->
-  evict_instances now ty ptrs srv txt = (srv', txt', ex) -> mshr srv srv' /\ mshr txt txt'.
+Lemma mshr_evict_instances now ty ptrs se : forall txt txt' ex,
+  NoDup (map fst txt) -> evict_instances now ty ptrs se txt = (txt', ex) -> mshr txt txt'.
 Proof.
-  induction ptrs as [|p rest IH]; intros srv txt srv' txt' ex NDs NDt; simpl.
-  - intros H. inversion H; subst. split; now apply mshr_refl.
+  induction ptrs as [|p rest IH]; intros txt txt' ex NDt; simpl.
+  - intros H. inversion H; subst. now apply mshr_refl.
   - set (inst := alias_of (e_rr p)).
-    destruct (match bm_get inst srv with
-              | Some sb => match live_only now sb with
-                           | [] => (bm_remove inst srv, [(ty, inst)])
-                           | _ :: _ => (bm_set inst (live_only now sb) srv, [])
-                           end
-              | None => (srv, [])
-              end) as [srv1 ex1] eqn:E1.
-    assert (Hs1 : mshr srv srv1).
-    { destruct (bm_get inst srv) as [sb|] eqn:Eg.
-      - destruct (live_only now sb) eqn:El; inversion E1; subst.
-        + now apply mshr_bm_remove.
-        + apply (mshr_bm_set srv inst sb); [assumption|]. right. split; [now apply bm_get_In|].
-          rewrite <- El. apply bshr_filter.
-      - inversion E1; subst. now apply mshr_refl. }
     set (txt1 := match bm_get inst txt with
                  | Some tb => bm_set inst (live_only now tb) txt
                  | None => txt
@@ -255,47 +240,25 @@ Proof.
     assert (Ht1 : mshr txt txt1).
     { unfold txt1. destruct (bm_get inst txt) as [tb|] eqn:Eg; [|now apply mshr_refl].
       apply (mshr_bm_set txt inst tb); [assumption|]. right. split; [now apply bm_get_In|apply bshr_filter]. }
-    intros H.
-    assert (Hsame : (let '(srv1, ex1) :=
-                       match bm_get inst srv with
-                       | Some sb => match live_only now sb with
-                                    | [] => (bm_remove inst srv, [(ty, inst)])
-                                    | sb' => (bm_set inst sb' srv, [])
-                                    end
-                       | None => (srv, [])
-                       end in
-                     let '(srv2, txt2, ex2) := evict_instances now ty rest srv1 txt1 in
-                     (srv2, txt2, ex1 ++ ex2)) = (srv', txt', ex)) by exact H.
-    clear H.
-    replace (match bm_get inst srv with
-             | Some sb => match live_only now sb with
-                          | [] => (bm_remove inst srv, [(ty, inst)])
-                          | sb' => (bm_set inst sb' srv, [])
-                          end
-             | None => (srv, [])
-             end) with (srv1, ex1) in Hsame.
-    2:{ rewrite <- E1. destruct (bm_get inst srv); [|reflexivity]. destruct (live_only now b); reflexivity. }
-    destruct (evict_instances now ty rest srv1 txt1) as [[srv2 txt2] ex2] eqn:E2.
-    inversion Hsame; subst.
-    destruct (IH srv1 txt1 srv' txt' ex2 (mshr_nodup_l _ _ Hs1) (mshr_nodup_l _ _ Ht1) E2) as [A B].
-    split; eapply mshr_trans; eauto.
+    destruct (evict_instances now ty rest se txt1) as [txt2 ex2] eqn:E2.
+    intros H. inversion H; subst.
+    eapply mshr_trans; [exact Ht1|]. eapply IH; [apply (mshr_nodup_l _ _ Ht1)|exact E2].
 Qed.
 
-Lemma mshr_evict_types now : forall ptr srv txt ptr' srv' txt' ex,
-  NoDup (map fst ptr) -> NoDup (map fst srv) -> NoDup (map fst txt) ->
-  evict_types now ptr srv txt = (ptr', srv', txt', ex) ->
-  map fst ptr' = map fst ptr /\ mshr ptr ptr' /\ mshr srv srv' /\ mshr txt txt'.
+Lemma mshr_evict_types now se : forall ptr txt ptr' txt' ex,
+  NoDup (map fst ptr) -> NoDup (map fst txt) ->
+  evict_types now ptr se txt = (ptr', txt', ex) ->
+  map fst ptr' = map fst ptr /\ mshr ptr ptr' /\ mshr txt txt'.
 Proof.
-  induction ptr as [|[ty ptrs] rest IH]; intros srv txt ptr' srv' txt' ex NDp NDs NDt; simpl.
+  induction ptr as [|[ty ptrs] rest IH]; intros txt ptr' txt' ex NDp NDt; simpl.
   - intros H. inversion H; subst. split; [reflexivity|]. split; [apply mshr_refl; constructor|].
-    split; now apply mshr_refl.
-  - destruct (evict_instances now ty ptrs srv txt) as [[srv1 txt1] ex1] eqn:E1.
-    destruct (evict_types now rest srv1 txt1) as [[[ptr2 srv2] txt2] ex2] eqn:E2.
+    now apply mshr_refl.
+  - destruct (evict_instances now ty ptrs se txt) as [txt1 ex1] eqn:E1.
+    destruct (evict_types now rest se txt1) as [[ptr2 txt2] ex2] eqn:E2.
     intros H. inversion H; subst. inversion NDp; subst.
-    destruct (mshr_evict_instances _ _ _ _ _ _ _ _ NDs NDt E1) as [A B].
-    destruct (IH srv1 txt1 ptr2 srv' txt' ex2 H3 (mshr_nodup_l _ _ A) (mshr_nodup_l _ _ B) E2)
-      as (K & P & S & T).
-    split; [simpl; now rewrite K|]. split; [|split; eapply mshr_trans; eauto].
+    pose proof (mshr_evict_instances _ _ _ _ _ _ _ NDt E1) as B.
+    destruct (IH txt1 ptr2 txt' ex2 H3 (mshr_nodup_l _ _ B) E2) as (K & P & T).
+    split; [simpl; now rewrite K|]. split; [|eapply mshr_trans; eauto].
     split; [simpl; rewrite K; assumption|].
     intros key b' [Hin|Hin].
     + inversion Hin; subst. right. exists ptrs. split; [now left|apply bshr_filter].
@@ -306,12 +269,11 @@ Qed.
 Lemma cshr_evict_services L c now : Inv L c -> cshr c (fst (evict_services c now)).
 Proof.
   intros HI. unfold evict_services.
-  destruct (evict_types now (c_ptr c) (c_srv c) (c_txt c)) as [[[ptr1 srv1] txt1] ex] eqn:E.
-  destruct (mshr_evict_types _ _ _ _ _ _ _ _ (Inv_nodup _ _ KPtr HI) (Inv_nodup _ _ KSrv HI)
-              (Inv_nodup _ _ KTxt HI) E) as (K & P & S & T).
+  destruct (evict_types now (c_ptr c) (srv_expired_of now (c_srv c)) (c_txt c)) as [[ptr1 txt1] ex] eqn:E.
+  destruct (mshr_evict_types _ _ _ _ _ _ _ (Inv_nodup _ _ KPtr HI) (Inv_nodup _ _ KTxt HI) E) as (K & P & T).
   intros k; destruct k; simpl.
   - assumption.
-  - eapply mshr_trans; [exact S|]. apply mshr_sweep. now apply (mshr_nodup_l _ _ S).
+  - apply mshr_sweep. apply (Inv_nodup _ _ KSrv HI).
   - eapply mshr_trans; [exact T|]. apply mshr_sweep. now apply (mshr_nodup_l _ _ T).
   - apply mshr_refl. apply (Inv_nodup _ _ KAddr HI).
   - apply mshr_sweep. apply (Inv_nodup _ _ KNsec HI).
@@ -365,9 +327,9 @@ Qed.
 Lemma mshr_verify_addrs at_ srvs : forall addr, NoDup (map fst addr) -> mshr addr (verify_addrs at_ srvs addr).
 Proof.
   induction srvs as [|s rest IH]; intros addr ND; simpl; [now apply mshr_refl|].
-  destruct (bm_get (srv_host s) addr) as [ab|] eqn:E; [|now apply IH].
+  destruct (bm_get (lower (srv_host s)) addr) as [ab|] eqn:E; [|now apply IH].
   eapply mshr_trans.
-  - apply (mshr_bm_set addr (srv_host s) ab (sooner_all at_ ab) ND). right.
+  - apply (mshr_bm_set addr (lower (srv_host s)) ab (sooner_all at_ ab) ND). right.
     split; [now apply bm_get_In|apply bshr_sooner_all].
   - apply IH. now apply bm_set_nodup.
 Qed.
@@ -568,12 +530,12 @@ Section Update.
   Proof.
     induction b as [|e t IH]; simpl; [intros _ ? []|].
     rewrite F_matches. destruct (entry_matches e r ifx) eqn:E; [discriminate|].
-    destruct (update_first (map F t) r ifx now) as [[t' e']|]; [discriminate|].
+    destruct (update_first (map F t) r ifx now) as [[t' x']|]; [discriminate|].
     intros _ x [<-|Hx]; auto.
   Qed.
 
-  Lemma update_first_some (b : bucket) b2 e' :
-    update_first (map F b) r ifx now = Some (b2, e') ->
+  Lemma update_first_some (b : bucket) b2 e' rv :
+    update_first (map F b) r ifx now = Some (b2, (e', rv)) ->
     exists l1 e0 l2, b = l1 ++ e0 :: l2 /\ (forall x, In x l1 -> entry_matches x r ifx = false)
       /\ entry_matches e0 r ifx = true /\ e' = reset_ttl (F e0) r now
       /\ b2 = map F l1 ++ e' :: map F l2.
@@ -581,7 +543,7 @@ Section Update.
     revert b2. induction b as [|e t IH]; simpl; [discriminate|]. intros b2.
     rewrite F_matches. destruct (entry_matches e r ifx) eqn:E.
     - intros H. inversion H; subst. exists [], e, t. simpl. repeat split; auto. intros ? [].
-    - destruct (update_first (map F t) r ifx now) as [[t' e1]|] eqn:E2; [|discriminate].
+    - destruct (update_first (map F t) r ifx now) as [[t' [e1 rv1]]|] eqn:E2; [|discriminate].
       intros H. inversion H; subst. destruct (IH t' eq_refl) as (l1 & e0 & l2 & A & B & C & D & G).
       exists (e :: l1), e0, l2. subst. simpl. repeat split; auto.
       intros x [<-|Hx]; auto.
@@ -604,8 +566,8 @@ Section Update.
       nodup_bucket B /\ forall e, In e B -> entry_ok (L ++ [dn]) k key e.
   Proof.
     intros ND Hok Hk Hkey B HB.
-    destruct (update_first (map F b) r ifx now) as [[b2 e']|] eqn:E.
-    - subst B. destruct (update_first_some _ _ _ E) as (l1 & e0 & l2 & A & Hl1 & Hm & He' & Hb2).
+    destruct (update_first (map F b) r ifx now) as [[b2 [e' rv]]|] eqn:E.
+    - subst B. destruct (update_first_some _ _ _ _ E) as (l1 & e0 & l2 & A & Hl1 & Hm & He' & Hb2).
       (* the records after the matching one do not match either *)
       assert (Hl2 : forall x, In x l2 -> entry_matches x r ifx = false).
       { intros x Hx. destruct (entry_matches x r ifx) eqn:Ex; [|reflexivity]. exfalso.
@@ -683,7 +645,7 @@ Proof.
     + rewrite (flushed_is_map r ifx now (e0 :: t0)).
       pose proof (bucket_update r ifx now L k0 key (e0 :: t0) Hnd0 Hok0 Ek eq_refl) as HU.
       destruct (update_first (map (fun e => if r_flush r then flush_one r ifx now e else e) (e0 :: t0)) r ifx now)
-        as [[b2 e']|] eqn:EU; simpl; apply Hset; apply HU; reflexivity.
+        as [[b2 [e' rv]]|] eqn:EU; simpl; apply Hset; apply HU; reflexivity.
   - destruct fu; simpl; apply Hset.
     + split; [repeat constructor|]. intros e [<-|[]]. apply entry_ok_new; auto.
     + split; [constructor|intros ? []].
